@@ -27,6 +27,7 @@
 #include <sys/wait.h>
 #include <unistd.h>
 #include <errno.h>
+#include <fcntl.h>
 
 namespace rs {
 
@@ -73,8 +74,15 @@ struct ProcState {
     bool inChild, synthetic; int (*realFork)(); int (*realWaitPid)(int, int*, int);
     int test; Vec<Op> script; size_t pos; int64_t eintrLeft; int nextFake; int waitCalls;
     Vec<int> livePids;
+    int pipeFd[2]; size_t childFlushPos;
 };
 static ProcState PS;
+static void childFlushHook() {      // in a forked child: console bytes reach the outside world only when they are flushed
+    if (!PS.inChild || PS.pipeFd[1] < 0) return;
+    const Str& c = simIO().console;
+    while (PS.childFlushPos < c.size()) { ssize_t w = write(PS.pipeFd[1], c.data() + PS.childFlushPos, c.size() - PS.childFlushPos); if (w <= 0) break; PS.childFlushPos += (size_t)w; }
+}
+static void drainChildPipe(Str& into) { if (PS.pipeFd[0] < 0) return; char buf[4096]; ssize_t n; while ((n = read(PS.pipeFd[0], buf, sizeof buf)) > 0) into.append(buf, (size_t)n); }
 static void procLog(int what, int64_t v) { RS.o->procLog.push_back(PS.test); RS.o->procLog.push_back(what); RS.o->procLog.push_back(v); }
 static int simFork() {
     PS.test = RS.currentTest; PS.script.clear(); PS.pos = 0; PS.eintrLeft = -1; PS.waitCalls = 0;
@@ -84,7 +92,7 @@ static int simFork() {
     if (PS.synthetic) return 1000000 + PS.nextFake++;
     fflush(0);
     int pid = PS.realFork();
-    if (pid == 0) { PS.inChild = true; return 0; }
+    if (pid == 0) { PS.inChild = true; PS.childFlushPos = simIO().console.size(); return 0; }
     if (pid > 0) PS.livePids.push_back(pid);
     return pid;
 }
@@ -106,6 +114,7 @@ static int simWaitPid(int pid, int* status, int options) {
     }
     if (PS.synthetic) { procLog(4, PS.waitCalls); *status = 0; return pid; }     // the code under test keeps waiting although the child is gone: reported as a hang
     int r = PS.realWaitPid(pid, status, options);
+    drainChildPipe(RS.o->childConsole);
     if (r == pid && (WIFEXITED(*status) || WIFSIGNALED(*status))) { for (size_t i = 0; i < PS.livePids.size(); i++) if (PS.livePids[i] == pid) { PS.livePids.erase(PS.livePids.begin() + (long)i); break; } fired(WIFSIGNALED(*status) ? "real_child_killed_by_signal" : "real_child_exited"); }
     else if (r == pid && WIFSTOPPED(*status)) fired("real_child_stopped");
     return r;
@@ -262,6 +271,9 @@ public:
                 pushEv(E_OP, t, phase, (int)i, pidx);
                 fired("plugin_error");
                 result.addFailure(TestFailure(&test, "plugin.cpp", (size_t)o.d, o.s2.c_str()));
+            } else if (o.kind == K_DIE_SIGNAL || o.kind == K_DIE_EXIT || o.kind == K_DIE_ABORT) {     // the child dies inside a plugin action (separate-process mode)
+                pushEv(E_OP, t, phase, (int)i, pidx);
+                if (PS.inChild) { if (o.kind == K_DIE_SIGNAL) { fflush(0); raise((int)o.a); } else if (o.kind == K_DIE_EXIT) _exit((int)o.a); else { signal(SIGABRT, SIG_DFL); abort(); } }
             } else pushEv(E_OP, t, phase, (int)i, pidx);
         }
     }
@@ -374,6 +386,9 @@ void executeRun(const Desc& d, Obs& o) {
     SimJmp& J = simJmp(); o.depthAtStart = J.depth(); J.maxDepth = J.depth();
 
     if (!PS.realFork) { PS.realFork = PlatformSpecificFork; PS.realWaitPid = PlatformSpecificWaitPid; PlatformSpecificFork = simFork; PlatformSpecificWaitPid = simWaitPid; }
+    PS.pipeFd[0] = PS.pipeFd[1] = -1;
+    if (d.pi("separate") && !d.pi("synthetic")) { if (pipe(PS.pipeFd) == 0) { fcntl(PS.pipeFd[0], F_SETFL, O_NONBLOCK); } else PS.pipeFd[0] = PS.pipeFd[1] = -1; }
+    simIO().flushHook = childFlushHook;
     PS.inChild = false; PS.synthetic = d.pi("synthetic") != 0; PS.nextFake = 0; PS.livePids.clear(); PS.script.clear(); PS.pos = 0; PS.eintrLeft = -1; PS.test = -1;
 
     det->increaseAllocationStage();        // everything the run leaves behind is released again after the run
@@ -466,6 +481,8 @@ void executeRun(const Desc& d, Obs& o) {
 
     for (size_t i = 0; i < PS.livePids.size(); i++) { __real_kill(PS.livePids[i], SIGKILL); __real_kill(PS.livePids[i], SIGCONT); int st; while (PS.realWaitPid(PS.livePids[i], &st, 0) < 0 && errno == EINTR) {} }
     PS.livePids.clear();
+    drainChildPipe(o.childConsole);
+    if (PS.pipeFd[0] >= 0) { close(PS.pipeFd[0]); close(PS.pipeFd[1]); PS.pipeFd[0] = PS.pipeFd[1] = -1; }
     o.depthAtEnd = J.depth(); o.maxDepth = J.maxDepth;
     o.ctxOkAtEnd = UtestShell::getCurrent() == RS.outsideShell;
     o.finalProbe = probePointers();
